@@ -28,7 +28,9 @@ def liveMonitor (v : Variant) (s : St) (c : PipeCfg) (allow stale : Bool) (env :
   let pre := content n s
   let post := content n r.2.1
   let log := r.2.2
-  let running := ((s.mem.pls c.id).map (fun p => isRunningStatus p.status)).getD false
+  -- the status the authorisation gate must judge: after the window in which an external Start may land
+  let running := runningNow (flipState c env s) c.id
+  let preFlip := content n (flipState c env s)
   let plan := match exportPl v s.mem c.id with | .ok old => build v 1 old c | .error _ => []
   let stillRunning := ((r.2.1.kv.pls c.id).map (fun p => isRunningStatus p.status)).getD false
   let doubleFault : Bool := match k, r.1 with
@@ -36,10 +38,11 @@ def liveMonitor (v : Variant) (s : St) (c : PipeCfg) (allow stale : Bool) (env :
     | _, _ => false
   if doubleFault then some "scope-end"
   else if stale && (okB r.1 || post ≠ pre || !log.isEmpty) then some "stale-applied"
-  else if running && !allow && !plan.isEmpty && !stale && (okB r.1 || post ≠ pre || !log.isEmpty) then some "unauthorised-applied"
+  else if running && !allow && !plan.isEmpty && !stale && (okB r.1 || (post ≠ pre && post ≠ preFlip) || !log.isEmpty) then
+    some "unauthorised-applied"
   else if running && !liveEligible plan && (evIndex log .commit).isSome &&
           !((evIndex log .stop).any fun i => (evIndex log .commit).any fun j => i < j) then some "mutate-before-drain"
-  else if !okB r.1 && post ≠ pre && stillRunning then
+  else if !okB r.1 && post ≠ pre && post ≠ preFlip && stillRunning then
     (if (evIndex log .commit).isNone then some "failed-apply-commit"
      else if log.getLast? = some .stop then some "inplace-fallback-stop-failed"
      else some "failed-apply-left-running-changed")
